@@ -36,6 +36,7 @@ pub fn world(prec: u128, inc: u128, ask_fee: Option<&str>, bid_fee: Option<&str>
         time_ns: 1_600_000_000_000_000_000,
         probe_seed: 1,
         marker_required_attrs: BTreeMap::new(),
+        marker_status: BTreeMap::new(),
     }
 }
 
